@@ -3,6 +3,7 @@ import RoaringModel.Lemmas.BitmapSearchOps
 import RoaringModel.Lemmas.BitmapOrAssign
 import RoaringModel.Lemmas.BitmapAndAssign
 import RoaringModel.Lemmas.Canonical
+import RoaringModel.Lemmas.MirrorLemmas
 /-!
 # C02 — 32-bit set algebra is exactly union / intersection / difference / symmetric difference
 
@@ -258,5 +259,67 @@ example : exC.WF := by
 example : elems (orRR exA exB) = [1, 5, 6, 65535, 196617, 458752, 458754]
     ∧ elems (andRR exA exB) = [5] ∧ elems (subRR exA exB) = [1, 65535, 458752, 458754]
     ∧ elems (xorAO exA exB) = [1, 6, 65535, 196617, 458752, 458754] := by decide +kernel
+
+/-! ## Fidelity audit (stores): the theorems above, restated for the mirrored definitions the driver executes
+
+`notes/fidelity-stores-iter32.md`.  The store kernels under `C02_*` are `Arr.or/and/sub/xor` (scalar.rs) and
+`BStore.opBitmaps` (bitmap_store.rs `op_bitmaps`).  Their Rust originals are (a) ONE generic merge per operator,
+parameterised by a `BinaryOperationVisitor`, closed by `ArrayStore::from_vec_unchecked`, and (b) ONE loop that applies
+the word operator and accumulates `len`.  The mirrored definitions are `Arr.scalar* V` / `Arr.*Op dbg` and
+`BStore.opBitmapsMirror`.  Because the equalities below are equalities of *functions* (`@[csimp]`, unconditional), the
+compiled driver evaluates every `C02_*` operation through the mirrored kernels, and every theorem of this file is, by
+rewriting with them, a theorem about what the driver executes. -/
+
+/-- what the compiled driver runs in place of the five array kernels and the bitset kernel (the `@[csimp]` equations) -/
+theorem C02_driver_runs_mirrors :
+    @Arr.or = @Arr.orVisit ∧ @Arr.and = @Arr.andVisit ∧ @Arr.sub = @Arr.subVisit ∧ @Arr.xor = @Arr.xorVisit
+    ∧ @BStore.opBitmaps = @BStore.opBitmapsMirror :=
+  ⟨Arr.or_eq_visit, Arr.and_eq_visit, Arr.sub_eq_visit, Arr.xor_eq_visit, BStore.opBitmaps_eq_mirror⟩
+
+/-- scalar.rs, generic in the visitor, run with `VecWriter` from any already written prefix `acc`: it appends exactly
+    the model merge — for arbitrary (also ill-formed) slices -/
+theorem C02_scalar_vecWriter (l r : List Nat) (acc : Array Nat) :
+    (Arr.scalarOr Arr.vecWriter l r acc).toList = acc.toList ++ Arr.or l r
+    ∧ (Arr.scalarAnd Arr.vecWriter l r acc).toList = acc.toList ++ Arr.and l r
+    ∧ (Arr.scalarSub Arr.vecWriter l r acc).toList = acc.toList ++ Arr.sub l r
+    ∧ (Arr.scalarXor Arr.vecWriter l r acc).toList = acc.toList ++ Arr.xor l r :=
+  ⟨Arr.scalarOr_vecWriter l r acc, Arr.scalarAnd_vecWriter l r acc, Arr.scalarSub_vecWriter l r acc,
+   Arr.scalarXor_vecWriter l r acc⟩
+
+/-- The four `&ArrayStore ∘ &ArrayStore` operator impls *including* the closing `from_vec_unchecked`: on strictly
+    ascending operands (every array chunk of a `Bitmap.WF` value: `Store.Inv`) the debug validation never fires, in
+    either build configuration, and the result is the strictly ascending vector of the set operation. -/
+theorem C02_array_ops_exact (dbg : Bool) (a b : List Nat) (ha : Sorted a) (hb : Sorted b) :
+    (∃ v, Arr.orOp dbg a b = some v ∧ Sorted v ∧ ∀ x, x ∈ v ↔ x ∈ a ∨ x ∈ b)
+    ∧ (∃ v, Arr.andOp dbg a b = some v ∧ Sorted v ∧ ∀ x, x ∈ v ↔ x ∈ a ∧ x ∈ b)
+    ∧ (∃ v, Arr.subOp dbg a b = some v ∧ Sorted v ∧ ∀ x, x ∈ v ↔ x ∈ a ∧ x ∉ b)
+    ∧ (∃ v, Arr.xorOp dbg a b = some v ∧ Sorted v ∧ ∀ x, x ∈ v ↔ (x ∈ a ∧ x ∉ b) ∨ (x ∉ a ∧ x ∈ b)) :=
+  ⟨⟨_, Arr.orOp_eq dbg a b ha hb, Arr.sorted_or a b ha hb, Arr.mem_or a b⟩,
+   ⟨_, Arr.andOp_eq dbg a b ha hb, Arr.sorted_and a b ha hb, Arr.mem_and a b ha hb⟩,
+   ⟨_, Arr.subOp_eq dbg a b ha hb, Arr.sorted_sub a b ha hb, Arr.mem_sub a b ha hb⟩,
+   ⟨_, Arr.xorOp_eq dbg a b ha hb, Arr.sorted_xor a b ha hb, Arr.mem_xor a b ha hb⟩⟩
+
+example : Sorted [1, 5, 65535] ∧ Sorted [5, 6] := by simp [Sorted]
+example : Arr.orOp true [1, 5, 65535] [5, 6] = some [1, 5, 6, 65535] ∧ Arr.xorOp true [1, 5, 65535] [5, 6] = some [1, 6, 65535]
+    ∧ Arr.orOp true [5, 1] [2] = none := by decide +kernel
+
+/-- `op_bitmaps` as the single loop of the Rust (`len = 0`; per word: operator, then `len += count_ones`) is the model's
+    `opBitmaps` for every word operator and all operands; in particular `orB/andB/subB/xorB`, on which
+    `C02_*` rest, are that loop. -/
+theorem C02_opBitmaps_mirror (f : Nat → Nat → Nat) (a b : BStore) :
+    BStore.opBitmapsMirror f a b = BStore.opBitmaps f a b := BStore.opBitmaps_mirror_eq f a b
+
+example : BStore.opBitmapsMirror (· ^^^ ·) ⟨3, [7, 0]⟩ ⟨2, [1, 8]⟩ = ⟨3, [6, 8]⟩ := by decide +kernel
+
+/-- The two store conversions of `ensure_correct_store` *including* the debug validation of the `*_unchecked`
+    constructor they end in (`to_array_store` → `from_vec_unchecked`, `to_bitmap_store` → `from_unchecked`): never
+    fires on a store satisfying its structural invariant, so `Container.ensureCorrectStore` (which uses the bare
+    `toArray` / `arrToBitmap`) drops nothing. -/
+theorem C02_conversions_validated (dbg : Bool) :
+    (∀ b : BStore, b.Inv → BStore.toArrayOp dbg b = some b.toArray)
+    ∧ (∀ v : List Nat, Arr.Inv v → Store.arrToBitmapOp dbg v = some (Store.arrToBitmap v)) :=
+  ⟨fun b hb => BStore.toArrayOp_eq dbg b hb, fun v hv => Store.arrToBitmapOp_eq dbg v hv⟩
+
+example : BStore.new.Inv ∧ Arr.Inv [1, 5, 65535] := ⟨BStore.inv_new, by simp [Sorted], by decide⟩
 
 end Roaring.C02
